@@ -39,9 +39,10 @@ def observe(binary, line):
     home_config = unhx(line['homeConfig']) if line.get('homeConfig') is not None else None
     argv = [unhx(a) for a in line.get('argv', [])]
     runs = []
+    slot = core.new_slot()          # the same scratch path for every repetition: $HOME is an input (`gen` prints it)
     for _ in range(max(1, min(int(line.get('reps') or 1), 4))):
         try:
-            rc, out, err = core.run_real_binary(binary, argv, files, env_extra=env, tz=line.get('tz') or 'UTC', home_config=home_config, stable_dir=False)
+            rc, out, err = core.run_real_binary(binary, argv, files, env_extra=env, tz=line.get('tz') or 'UTC', home_config=home_config, slot=slot)
         except subprocess.TimeoutExpired:
             return {'id': line['id'], 'status': 'timeout', 'out': '', 'blackbox': True}
         except Exception:
@@ -76,6 +77,6 @@ class BlackboxDriver:
         out = {}
         for r in res:
             out[r['id']] = r
-            if r['status'] == 'notrun':
+            if r['status'] in ('notrun', 'timeout'):      # (a time-out under 16 parallel processes is not evidence)
                 self.notrun.add(r['id'])
         return out
